@@ -26,7 +26,11 @@ type Parser struct {
 	currentToken *Token // Current token being processed
 	peekToken    *Token // Next token (lookahead)
 	resolver     ReferenceResolver
+	depth        int // Current nesting depth of arrays and dictionaries
 }
+
+// maxNestingDepth bounds how deeply arrays and dictionaries may be nested.
+const maxNestingDepth = 500
 
 // SetReferenceResolver sets the reference resolver for the parser.
 // This is needed to resolve indirect stream lengths.
@@ -216,6 +220,11 @@ func (p *Parser) parseArray() (Object, error) {
 	if p.currentToken.Type != TokenArrayStart {
 		return nil, fmt.Errorf("expected '[', got %v", p.currentToken.Type)
 	}
+	if p.depth >= maxNestingDepth {
+		return nil, fmt.Errorf("objects nested deeper than %d levels", maxNestingDepth)
+	}
+	p.depth++
+	defer func() { p.depth-- }()
 	p.nextToken()
 
 	var arr Array
@@ -253,6 +262,11 @@ func (p *Parser) parseDict() (Object, error) {
 	if p.currentToken.Type != TokenDictStart {
 		return nil, fmt.Errorf("expected '<<', got %v", p.currentToken.Type)
 	}
+	if p.depth >= maxNestingDepth {
+		return nil, fmt.Errorf("objects nested deeper than %d levels", maxNestingDepth)
+	}
+	p.depth++
+	defer func() { p.depth-- }()
 	p.nextToken()
 
 	dict := make(Dict)
